@@ -25,6 +25,11 @@ from vcheck.extra import hook
 from . import c15_render as R
 
 REPO = os.environ.get("VERIF_REPO", "/repo")
+if os.environ.get("VERIF_REPO"):  # stand-alone replay (`python -m vcheck.hooks.c01 file`): import ufo2ft from the same tree vcheck would
+    import sys as _sys
+
+    if os.path.join(REPO, "Lib") not in _sys.path:
+        _sys.path.insert(0, os.path.join(REPO, "Lib"))
 OUT = os.environ.get("VERIF_OUT", os.path.join(os.path.dirname(os.path.dirname(os.path.dirname(os.path.abspath(__file__)))), "out"))
 
 
@@ -180,7 +185,8 @@ def observe_otf(desc, lib, round_tol, cff_version, optimize, skip=()):
         exp = R.resolve(name, desc)  # references to non-export glyphs are resolved like any other
         pen = RecordingPen()
         gs[name].draw(pen)
-        got = R.segments_to_contours(pen.value)
+        slack = (0.01 + 0.005 * sum(len(c) for c in exp)) if (optimize == 2 and tol < 0.5) else (0.002 if tol < 0.5 else 0.0)
+        got = R.segments_to_contours(pen.value, close_eps=slack)
         if skip:
             # FINDING (notes/C01.md, F-C01-1): with public.skipExportGlyphs the contours of a non-export MIXED/simple glyph referenced
             # after other components are emitted BEFORE those components' contours (SkipExportGlyphsFilter inlines them as contours,
@@ -197,7 +203,7 @@ def observe_otf(desc, lib, round_tol, cff_version, optimize, skip=()):
         else:
             if R.degenerate(R.round_contours(exp)):
                 skipped += 1
-            elif not R.same_shape(exp, got, tol=tol + 0.002 + (0.01 + 0.005 * sum(len(c) for c in exp) if optimize == 2 else 0)):
+            elif not R.same_shape(exp, got, tol=tol + 0.002 + slack):
                 # optimizeCFF=2 (cffsubr) re-encodes non-integer operands with two decimals; operands are RELATIVE moves, so the error
                 # (<= 0.005 per operand) accumulates over all points of the glyph: measured 0.26 for tolerance 0.25 and 0.08 for tolerance 0
                 # on the unchanged tree; allowed for as representation error of the external compressor (see notes/C01.md)
@@ -272,3 +278,22 @@ def c01_observer(tier, seed):
     })
     res["trusted"] += ["fontTools.pens.filterPen.DecomposingFilterPointPen (bounded: C01 observer)", "fontTools.pens.t2CharStringPen.T2CharStringPen (bounded: C01 observer)"]
     return res
+
+
+def replay(path):
+    """`.venv/bin/python -m vcheck.hooks.c01 <replay.json>` — re-run one observer case (hook replays carry no contract key)"""
+    with open(path) as f:
+        pl = json.load(f)
+    print(json.dumps({k: v for k, v in pl.items() if k != "case"}, indent=1, default=str)[:2000])
+    if pl.get("case") is None:
+        print("syntactic obligation: re-run ./check", pl.get("property"))
+        return 0
+    bad, _ = replay_case(pl["case"])
+    print("replay result:", bad[:2] if bad else "agrees with the reference semantics")
+    return 1 if bad else 0
+
+
+if __name__ == "__main__":
+    import sys
+
+    sys.exit(replay(sys.argv[1]))
